@@ -389,7 +389,7 @@ func runC13(c *mc.Ctx) {
 		for _, pm := range []c13PM{{19, 784931}, {2, 5}, {32, 1 << 32}, {0, 3}} {
 			sizes := mc.Pick(c, []int{5, 6, 8, 16, 33}, []int{5, 6, 7, 8, 9, 16, 17, 33, 100})
 			if pm.P == 19 { // size ladder (one configuration): counts beyond 8, 10, 15 and 16 bits
-				sizes = append(sizes, mc.Pick(c, []int{257, 1025, 4097, 8193, 70001}, []int{257, 1025, 2049, 4095, 4096, 4097, 8193, 16385, 32769, 65537, 70001, 140003})...)
+				sizes = append(sizes, mc.Pick(c, []int{257, 1025, 4097, 8193, 70001, 140003}, []int{257, 1025, 2049, 4095, 4096, 4097, 8193, 16385, 32769, 65537, 70001, 131071, 131072, 131073, 140003, 300007})...)
 			}
 			for _, n := range sizes {
 				var items [][]byte
